@@ -355,6 +355,9 @@ func (proj *Project) builtin_target(
 		if err != nil {
 			return nil, err
 		}
+		if path == "." || path == "/" {
+			return nil, fmt.Errorf("generated file %v is the project root", g)
+		}
 		components := strings.Split(path, "/")
 		path = filepath.Join(proj.root, filepath.Join(components...))
 		gens = append(gens, path)
